@@ -66,7 +66,7 @@ def _in_stable_order(arg: Any) -> Any:
         arg,
         key=lambda v: (
             v.get_sql(DEFAULT_SQL_CONTEXT.copy(with_namespace=True))
-            if isinstance(v, Term)
+            if isinstance(v, (Term, Interval))
             else repr(v)
         ),
     )
@@ -675,7 +675,7 @@ class Criterion(Term):
     def any(terms: Iterable[Term] = ()) -> "EmptyCriterion":
         crit = EmptyCriterion()
 
-        for term in terms:
+        for term in _in_stable_order(terms):
             crit |= term  # type:ignore[assignment]
 
         return crit
@@ -684,7 +684,7 @@ class Criterion(Term):
     def all(terms: Iterable[Any] = ()) -> "EmptyCriterion":
         crit = EmptyCriterion()
 
-        for term in terms:
+        for term in _in_stable_order(terms):
             crit &= term
 
         return crit
